@@ -210,7 +210,7 @@ func c13(r *mon.Run) {
 	// parser histories
 	corpus := []string{"a", "a.b", "a[0]", "a[*].b", "[?a>`1`]", "{x: a, y: b}", "sort_by(a, &b)", "'raw'", "'it\\'s'", "`[1,2]`", "\"q\".b", "a || b && !c", "a | b", "*.a[]", "[a, b][0]", "f(@)", "a[1:2:3]", "'x' == 'y'",
 		"'a\\'b' | 'c\\'d'", "'''", "'abc", "'a\\'b", "\"abc", "`abc", "\"\\x\"", "`{`", "a.", "a..b", "[", "a[", "(", "a)", "{a:", "a b", "#", "a#b", "é", "a == ", "&a", "f(a b)", "[0", "a[0:1:2:3]", "@(", "", " ", "'unterminated \\'",
-		"'1'", "`1`", "a == '1'", "a == `1`", "'true'", "`true`", "'null'", "`null`", "'[1]'", "`[1]`", "'\"a\"'", "`\"a\"`", "\"a\"", "'a'", "`{}`", "'{}'", "[?a == '1' || b == `1`]", "'*'", "['*']", "[*]", "\"*\"", "[\"*\"]",
+		"\ufeffa", "\ufeffpeople[0].name", "\ufeff", "\u00a0a", "\u200ba", "\x00a", "people[0].name", "a ~ b", "a", "'unclosed", "\ufeff'x", "'1'", "`1`", "a == '1'", "a == `1`", "'true'", "`true`", "'null'", "`null`", "'[1]'", "`[1]`", "'\"a\"'", "`\"a\"`", "\"a\"", "'a'", "`{}`", "'{}'", "[?a == '1' || b == `1`]", "'*'", "['*']", "[*]", "\"*\"", "[\"*\"]",
 		"'q\\'", "a['", "\"a\\\"", "a.'b'", "1", "-", "[-]", "a[99999999999999999999]"}
 	np := tierPick(r, 6000, 150000)
 	ph := mon.Workload{Name: "parser-histories", N: np, Batch: 200,
